@@ -186,6 +186,19 @@ def check_targets(x, lab, bad, backend, ordered=True, loose=False, origin=None):
             bad.append(f"{lab}: {col.name}.export(Polars()) = {ser.dtype} {got[:4]} differs from the frame column {want.dtype} {exp[:4]}")
         if ser.name != col.name:
             bad.append(f"{lab}: {col.name}.export(Polars()) is named {ser.name!r}")
+        # the Pandas target of a column export: a Series (also for 0 / 1 rows) with the values of the Pandas table export
+        try:
+            import pandas as pd
+
+            pser = col.export(pdt.Pandas())
+            if not isinstance(pser, pd.Series):
+                bad.append(f"{lab}: {col.name}.export(Pandas()) is a {type(pser).__name__}, not a pandas Series")
+            else:
+                pl_back = pl.from_pandas(pser.to_frame(name=col.name))[col.name].to_list() if len(pser) else []
+                if len(pser) != len(exp) or (not loose and not RS([(v,) for v in pl_back], [(v,) for v in exp])):
+                    bad.append(f"{lab}: {col.name}.export(Pandas()) has {len(pser)} values {pl_back[:4]}, the frame column has {len(exp)}: {exp[:4]}")
+        except (pdt.errors.SubqueryError, pdt.errors.NotSupportedError):
+            pass
         # the same column reached by indexing the derived table with the ORIGIN table's column object
         if origin is not None and col._uuid in origin._cache.cols:
             try:
